@@ -31,8 +31,10 @@ import (
 	"math"
 	"os"
 	"sort"
+	"strconv"
 	"strings"
 	"testing"
+	"time"
 
 	"github.com/influxdata/influxdb/v2/influxql/query"
 	"github.com/influxdata/influxdb/v2/models"
@@ -984,34 +986,34 @@ func report(c *vlib.Ctx, cs Case, steps []stepResult) {
 	}
 }
 
-// historyCases enumerates the cases of part 1 in a fixed order (simplest first) and calls visit(idx, case).
-// The running index is global over the check (part 2 continues it).
+// bothOrAbsent: every series is absent or present in BOTH shards.
+func bothOrAbsent(p []int) bool {
+	for _, x := range p {
+		if x != 0 && x != 3 {
+			return false
+		}
+	}
+	return true
+}
+
+// historyCases enumerates the cases of part 1 in a fixed order (simplest first) and calls visit(case).
 func historyCases(thorough bool, visit func(cs Case)) {
 	pats := patterns()
 	dels := deletes(thorough)
-	var modes []string
-	var dsPats [][]int
-	if thorough {
-		modes = []string{"cache", "tsm", "mixed"}
-		dsPats = pats
-	} else {
-		modes = []string{"mixed", "tsm"}
-		// quick: the datasets in which every series is absent or in BOTH shards with ≥ 3 series, plus two asymmetric ones
-		for _, p := range pats {
-			ok := true
-			for _, x := range p {
-				if x != 0 && x != 3 {
-					ok = false
-				}
-			}
-			if ok && present(p) >= 3 {
-				dsPats = append(dsPats, p)
-			}
+	allModes := []string{"cache", "tsm", "mixed"}
+	// depth 1: datasets × layouts × deletes, complete product
+	for i, p := range pats {
+		var modes []string
+		switch {
+		case thorough && bothOrAbsent(p):
+			modes = allModes
+		case thorough:
+			modes = []string{allModes[i%3]}
+		case bothOrAbsent(p) && present(p) >= 3:
+			modes = []string{"mixed", "tsm"}
+		case fmt.Sprint(p) == "[1 3 2 3]" || fmt.Sprint(p) == "[3 2 1 1]":
+			modes = []string{"mixed", "cache"}
 		}
-		dsPats = append(dsPats, []int{1, 3, 2, 3}, []int{3, 2, 1, 1})
-	}
-	// depth 1: complete product datasets × layouts × deletes
-	for _, p := range dsPats {
 		for _, mode := range modes {
 			ds := Dataset{Cells: cellsOf(p), Mode: mode}
 			for _, d := range dels {
@@ -1024,26 +1026,26 @@ func historyCases(thorough bool, visit func(cs Case)) {
 	var d2 []Op
 	t := slotT
 	m := func(v string) *P { return eq("_measurement", v) }
-	for _, r := range []rng{{"all", models.MinNanoTime, models.MaxNanoTime}, {"slot", t[1], t[1]}, {"slot", t[0], t[0]}, {"one-shard", t[0], t[1]}, {"one-shard", t[2], t[3]}, {"cross-boundary", t[1], t[2]}} {
-		for _, p := range []*P{nil, m("m0"), eq("a", "x"), and(m("m0"), eq("a", "y")), eq("b", "z")} {
-			if !thorough && (r.kind == "cross-boundary" || r.min == t[0] && r.max == t[0]) {
-				continue
-			}
+	rs := []rng{{"all", models.MinNanoTime, models.MaxNanoTime}, {"slot", t[1], t[1]}, {"one-shard", t[0], t[1]}}
+	ps := []*P{nil, m("m0"), eq("a", "x"), and(m("m0"), eq("a", "y"))}
+	mids := [][]Op{{}, {{Kind: "rewrite"}}}
+	modes := []string{"mixed"}
+	if thorough {
+		rs = append(rs, rng{"one-shard", t[2], t[3]}, rng{"slot", t[0], t[0]})
+		ps = append(ps, eq("b", "z"))
+		mids = append(mids, []Op{{Kind: "rewrite"}, {Kind: "snapshot"}}, []Op{{Kind: "snapshot"}})
+		modes = allModes
+	}
+	for _, r := range rs {
+		for _, p := range ps {
 			d2 = append(d2, Op{Kind: "delete", Min: r.min, Max: r.max, Pred: p, RK: r.kind})
 		}
-	}
-	mids := [][]Op{{}, {{Kind: "rewrite"}}, {{Kind: "rewrite"}, {Kind: "snapshot"}}, {{Kind: "snapshot"}}}
-	if !thorough {
-		mids = [][]Op{{}, {{Kind: "rewrite"}}}
 	}
 	for _, mode := range modes {
 		ds := Dataset{Cells: full, Mode: mode}
 		for _, mid := range mids {
 			for _, a := range d2 {
 				for _, bb := range d2 {
-					if !thorough && a.Pred.kind() != bb.Pred.kind() && a.RK != bb.RK {
-						continue
-					}
 					ops := append(append([]Op{a}, mid...), bb)
 					visit(Case{DS: ds, Ops: ops})
 				}
@@ -1091,17 +1093,31 @@ func replayHistory(raw json.RawMessage) (bool, string) {
 	return bad, sb.String()
 }
 
+const quickBudgetS, thoroughBudgetS = 75, 1300
+
 func TestCheck(t *testing.T) {
 	vlib.Main(t, &vlib.Check{
 		ID: "C17", Level: level,
 		Rule:         rule,
 		Assumptions:  assumptions,
-		QuickBudgetS: 70, ThoroughBudgetS: 1100,
+		QuickBudgetS: quickBudgetS, ThoroughBudgetS: thoroughBudgetS,
 		WorkerEnv: []string{"GOMAXPROCS=1"},
 		Run: func(c *vlib.Ctx) {
+			part := os.Getenv("C17_PART") // debugging aid: "hist" or "sched" runs only that part
+			// part 2 (schedules) first, with at most 45% of the wall budget; part 1 gets the rest
+			budget := time.Duration(quickBudgetS) * time.Second
+			if c.Thorough() {
+				budget = time.Duration(thoroughBudgetS) * time.Second
+			}
+			if v, err := strconv.Atoi(os.Getenv("VERIF_BUDGET_S")); err == nil && v > 0 {
+				budget = time.Duration(v) * time.Second
+			}
+			schedDeadline := time.Now().Add(budget * 45 / 100)
+			if part != "hist" {
+				runSchedules(t, c, func() bool { return c.Expired() || time.Now().After(schedDeadline) })
+			}
 			var idx int64
 			done, capped := 0, false
-			part := os.Getenv("C17_PART") // debugging aid: "hist" or "sched" runs only that part
 			historyCases(c.Thorough(), func(cs Case) {
 				idx++
 				if !c.Mine(idx) || capped || part == "sched" {
@@ -1124,9 +1140,6 @@ func TestCheck(t *testing.T) {
 				}
 			})
 			c.Note("history_cases_total", fmt.Sprint(idx))
-			if part != "hist" {
-				runSchedules(t, c, &idx)
-			}
 		},
 		Replay: func(c *vlib.Ctx, raw json.RawMessage) (bool, string) {
 			var probe struct {
